@@ -16,9 +16,9 @@ import (
 // ---- stub LSP client: records what the server sends; can answer workspace/configuration
 
 type pubRec struct {
-	Seq   int                            `json:"seq"`
-	URI   string                         `json:"uri"`
-	Diags []protocol.Diagnostic          `json:"diags"`
+	Seq   int                   `json:"seq"`
+	URI   string                `json:"uri"`
+	Diags []protocol.Diagnostic `json:"diags"`
 	raw   *protocol.PublishDiagnosticsParams
 }
 
